@@ -450,6 +450,10 @@ def check_property(pid, tier, seed):
         fams, nq, nt = plan['gated']
         n = nq if tier == 'quick' else nt
         gated = progs.generate(fams, n, rng.randrange(1 << 30), prefix=pid + 'g')
+        # every 8th program chooses job IDs with white space around them (an ID is an opaque string: C01/C07/C12 identity)
+        for i, p in enumerate(gated):
+            if i % 8 == 5 and not p['cfg'].get('idgen'):
+                p['cfg']['wsids'] = True
         # corpus: programs with recorded schedules that exposed a seeded change once (tools/mkcorpus.py)
         corpus = load_corpus(pid)
         gated += [p for p in corpus if p['sched']['kind'] != 'free']
